@@ -198,33 +198,49 @@ Definition acc_perm_gate (s : state) (x p : Z) : bool :=
 Definition gated (ok : bool) (k : outcome state) : outcome state := if ok then k else Err "not enough permissions".
 Definition via_gate (s : state) (v : via) (g : Z -> bool) : bool := match v with ByMsg x => g x | ByProp => true end.
 
-(* the permission each non-editing gated message is CODED to check.  layer2's keeper wrapper
-   ignores its permission argument and always checks PermHandleBasketEmergency. *)
-Definition gate_perm_coded (k : gkind) : Z :=
-  match k with GPoll => PermCreatePollProposal | GSubmit => PermCreateSetPoorNetworkMessagesProposal
-             | GVote => PermVoteSetPoorNetworkMessagesProposal | GDapp => PermHandleBasketEmergency end.
+(* ---- variation points of the working tree, resolved by the translator (Gen/Gates.v) so that the
+   model follows the tree before and after the corresponding repairs are committed *)
+Record cfg := mkCfg {
+  dapp_perm : Z;          (* permission layer2's CreateDappProposal effectively checks (module keeper wrapper) *)
+  claim_indexed : bool;   (* ClaimCouncilor whitelists through AddWhitelistPermission (index written) *)
+  import_role_bl : bool;  (* InitGenesis re-adds role blacklists *)
+  rotate_fixed : bool }.  (* rotation iterates over a copy of the roles and deletes the old actor last *)
+(* the pinned tree of round 1 *)
+Definition cfg_pinned : cfg := mkCfg 61 false false false.
+Definition cfg_repaired : cfg := mkCfg 67 true true true.
+
+Definition pdel_all (xs l : list (Z * Z)) : list (Z * Z) := fold_left (fun acc x => pdel x acc) xs l.
+Definition padd_all (xs l : list (Z * Z)) : list (Z * Z) := fold_left (fun acc x => padd x acc) xs l.
+Definition keys_for (a : Z) (l : list Z) : list (Z * Z) := map (fun x => (x, a)) l.
 
 (* ---- genesis: ExportGenesis reads 0x10, 0x11, 0x30, 0x50; InitGenesis on a store without
-   permission data *)
+   permission data.  Per actor: SaveNetworkActor, AssignRoleToActor for each role (SetRole is a no-op,
+   the same record is saved again, the (role,address) key is set), SetWhitelistAddressPermKey. *)
 Definition import_actor (s : state) (e : Z * actor) : state :=
   let '(a, act) := e in
-  let s1 := save_actor a act s in
-  let s2 := fold_left (fun st r => k_assign_actor st a act r) (a_roles act) s1 in
-  fold_left (fun st p => with_idx_pa st (padd (p, a) (idx_pa st))) (wl (a_perms act)) s2.
-Definition import_role_wl (s : state) (e : Z * perms) : state :=
+  with_idx_pa (with_idx_ra (save_actor a act s) (padd_all (keys_for a (a_roles act)) (idx_ra s)))
+              (padd_all (keys_for a (wl (a_perms act))) (idx_pa s)).
+Definition try_edit (f : state -> Z -> Z -> outcome state) (r : Z) (st : state) (p : Z) : state :=
+  match f st r p with Ok st' => st' | _ => st end.
+(* errors of WhitelistRolePermission / BlacklistRolePermission are ignored by InitGenesis *)
+Definition import_role (with_bl : bool) (s : state) (e : Z * perms) : state :=
   let '(r, rp) := e in
-  fold_left (fun st p => match k_wl_role st r p with Ok st' => st' | _ => st end) (wl rp) s.
+  let s1 := fold_left (try_edit k_wl_role r) (wl rp) s in
+  if with_bl then fold_left (try_edit k_bl_role r) (bl rp) s1 else s1.
 (* distinct keys of an association list, first binding wins (store iteration yields each key once) *)
 Fixpoint canon {V} (seen : list Z) (l : list (Z * V)) : list (Z * V) :=
   match l with [] => [] | (k, v) :: r => if mem k seen then canon seen r else (k, v) :: canon (k :: seen) r end.
-Definition export_import (s : state) : state :=
-  let s0 := mkState [] [] [] [] (Some (get_next_role s)) [] [] [] in
-  let s1 := fold_left import_actor (canon [] (actors s)) s0 in
-  let s2 := fold_left (fun st e => k_set_role st (fst e) (snd e)) (canon [] (rinfo s)) s1 in
-  fold_left import_role_wl (canon [] (rperms s)) s2.
+Definition import_start (s : state) : state := mkState [] [] [] [] (Some (get_next_role s)) [] [] [].
+Definition import_phase1 (s : state) : state := fold_left import_actor (canon [] (actors s)) (import_start s).
+Definition import_phase2 (s : state) : state :=
+  fold_left (fun st e => k_set_role st (fst e) (snd e)) (canon [] (rinfo s)) (import_phase1 s).
+Definition export_import (with_bl : bool) (s : state) : state :=
+  fold_left (import_role with_bl) (canon [] (rperms s)) (import_phase2 s).
 
-(* ---- RotateRecoveryAddress, gov:network_actor part.  [range actor.Roles] walks the ORIGINAL slice
-   header while RemoveRole (called on a copy of the struct) shifts the shared backing array. *)
+(* ---- RotateRecoveryAddress, gov:network_actor part.
+   Unrepaired: [range actor.Roles] walks the ORIGINAL slice header while RemoveRole (called on a copy
+   of the struct) shifts the shared backing array, and every UnassignRoleFromActor re-saves the old
+   actor after DeleteNetworkActor. *)
 Definition shift_out (x : Z) (arr : list Z) : list Z :=   (* backing array after RemoveRole: same length *)
   match rev arr with [] => [] | lst :: _ => if mem x arr then remove_first x arr ++ [lst] else arr end.
 Fixpoint rotate_unassign (n : nat) (i : nat) (a : Z) (act0 : actor) (arr : list Z) (s : state) : state * list Z :=
@@ -240,18 +256,39 @@ Fixpoint rotate_unassign (n : nat) (i : nat) (a : Z) (act0 : actor) (arr : list 
           rotate_unassign n' (S i) a act0 arr' s'
       end
   end.
-Definition rotate (s : state) (a b : Z) : state :=
+(* the new record: saved under b, role keys and whitelist keys set *)
+Definition rotate_install (s : state) (b : Z) (nact : actor) : state :=
+  with_idx_pa (with_idx_ra (save_actor b nact s) (padd_all (keys_for b (a_roles nact)) (idx_ra s)))
+              (padd_all (keys_for b (wl (a_perms nact))) (idx_pa s)).
+Definition rotate_buggy (s : state) (a b : Z) : state :=
   match lookup a (actors s) with
   | None => s
   | Some act =>
       let s1 := with_actors s (del a (actors s)) in
       let '(s2, arr) := rotate_unassign (List.length (a_roles act)) 0 a act (a_roles act) s1 in
-      let s3 := fold_left (fun st p => with_idx_pa st (pdel (p, a) (idx_pa st))) (wl (a_perms act)) s2 in
-      let nact := mkActor arr (a_perms act) in
-      let s4 := save_actor b nact s3 in
-      let s5 := fold_left (fun st r => k_assign_actor st b nact r) arr s4 in
-      fold_left (fun st p => with_idx_pa st (padd (p, b) (idx_pa st))) (wl (a_perms act)) s5
+      let s3 := with_idx_pa s2 (pdel_all (keys_for a (wl (a_perms act))) (idx_pa s2)) in
+      rotate_install s3 b (mkActor arr (a_perms act))
   end.
+(* Repaired: the role keys and whitelist keys of the old address are deleted, the old record is
+   deleted AFTER the last save, the unchanged record is installed under the new address. *)
+Definition rotate_repaired (s : state) (a b : Z) : state :=
+  match lookup a (actors s) with
+  | None => s
+  | Some act =>
+      let s1 := with_idx_ra s (pdel_all (keys_for a (a_roles act)) (idx_ra s)) in
+      let s2 := with_idx_pa s1 (pdel_all (keys_for a (wl (a_perms act))) (idx_pa s1)) in
+      let s3 := with_actors s2 (del a (actors s2)) in
+      rotate_install s3 b act
+  end.
+
+Section Cfg.
+Variable c : cfg.
+
+(* the permission each non-editing gated message is coded to check *)
+Definition gate_perm_coded (k : gkind) : Z :=
+  match k with GPoll => PermCreatePollProposal | GSubmit => PermCreateSetPoorNetworkMessagesProposal
+             | GVote => PermVoteSetPoorNetworkMessagesProposal | GDapp => dapp_perm c end.
+Definition rotate (s : state) (a b : Z) : state := if rotate_fixed c then rotate_repaired s a b else rotate_buggy s a b.
 
 Definition step (s : state) (o : op) : outcome state :=
   match o with
@@ -280,15 +317,19 @@ Definition step (s : state) (o : op) : outcome state :=
       gated (check_allowed s a PermClaimCouncilor)
         (match lookup a (actors s) with
          | None => Err "network actor not found"
-         | Some act => match add_wl PermCreatePollProposal (a_perms act) with
-                       | Some ps => Ok (save_actor a (mkActor (a_roles act) ps) s)     (* no 0x31 key *)
-                       | None => Ok s end
+         | Some act =>
+             if claim_indexed c then                              (* AddWhitelistPermission, error ignored *)
+               match k_add_wl_acc s a PermCreatePollProposal with Ok s' => Ok s' | _ => Ok s end
+             else match add_wl PermCreatePollProposal (a_perms act) with
+                  | Some ps => Ok (save_actor a (mkActor (a_roles act) ps) s)     (* no 0x31 key *)
+                  | None => Ok s end
          end)
   | OGate k x => gated (check_allowed s x (gate_perm_coded k)) (Ok s)
-  | OExportImport => Ok (export_import s)
+  | OExportImport => Ok (export_import (import_role_bl c) s)
   | ORotate a b => Ok (rotate s a b)
   end.
 
 (* a rejected operation leaves the state as it was (the transaction is rolled back) *)
 Definition step_total (s : state) (o : op) : state := match step s o with Ok s' => s' | _ => s end.
 Definition run (s : state) (ops : list op) : state := fold_left step_total ops s.
+End Cfg.
